@@ -10,7 +10,7 @@ import csscommon
 
 def run(tier, seed, replay):
     return csscommon.run_css(
-        "C09", tier, seed, replay, ["sel", "tok"], ["prefix", "tokens"],
-        "cases = MCCss families sel and tok x prefix in {none, '', 'p', non-ASCII} x sign in {none, 'S'}; the verdict looks at "
+        "C09", tier, seed, replay, ["sel", "tok", "host"], ["prefix", "tokens"],
+        "cases = MCCss families sel, tok and host (prefixing must survive :host conversion) x prefix in {none, '', 'p', non-ASCII} x sign in {none, 'S'}; the verdict looks at "
         "identifier and sign-comment tokens; non-trivial = distinct (source, options) containing a class selector",
         samples={"sel": {"quick": 8, "thorough": 2}}, variants=1 if tier == "quick" else 2)
